@@ -112,4 +112,12 @@ def acceptsFresh (m : Mech) (vl : Nat) (rem : Option Int) : Bool :=
   | .jwtKey, some r => decide (0 < r)
   | _, _ => true
 
+/-- Certificates that come with a JWK after its own one (`x5c[1:]`, the issuing CAs), given as remaining lifetimes:
+`validateJWK` hands them to the certificate validation as intermediates of the key's own certificate `x5c[0]`, so a
+fresh key is refused unless every one of them is still valid. They play no role for the cache TTL. -/
+def chainValid (m : Mech) (moreRem : List Int) : Bool :=
+  match m with
+  | .jwtKey => moreRem.all (fun r => decide (0 < r))
+  | _ => true
+
 end Heimdall.Validity
